@@ -62,6 +62,15 @@ def programs():
     add("bound-method", "FMT = \"hello {}\".format\n" + T + "    print(FMT(\"x\"))\n",
         [("receiver", "referenced", {"BUILD.dawn": "FMT = \"goodbye {}\".format\n" + T + "    print(FMT(\"x\"))\n"})])
     add("global-builtin", "F = sorted\n" + T + "    print(F([2, 1]))\n", [("other-builtin", "referenced", {"BUILD.dawn": "F = reversed\n" + T + "    print(F([2, 1]))\n"})])
+    add("kwonly-without-default", "def helper(a=1, *, b):\n    return a + b\n" + T + "    print(helper(b=2))\n",
+        [("helper-body", "referenced", {"BUILD.dawn": "def helper(a=1, *, b):\n    return a - b\n" + T + "    print(helper(b=2))\n"})])
+    add("helper-signature", "def h(a):\n    return a\n" + T + "    print(h(1))\n",
+        [("varargs", "referenced", {"BUILD.dawn": "def h(*a):\n    return a\n" + T + "    print(h(1))\n"})])
+    add("helper-signature-kwargs", "def h(kw):\n    return kw\n" + T + "    print(h(kw=1))\n",
+        [("kwargs", "referenced", {"BUILD.dawn": "def h(**kw):\n    return kw\n" + T + "    print(h(kw=1))\n"})])
+    add("unassigned-free-variable", "def outer():\n    def inner():\n        return y\n    if False:\n        y = 1\n    return inner\nG = outer()\n" + T + "    print(G)\n")
+    add("self-containing-list", "X = [1]\nX.append(X)\n" + T + "    print(len(X))\n",
+        [("element", "referenced", {"BUILD.dawn": "X = [2]\nX.append(X)\n" + T + "    print(len(X))\n"})])
     add("helper", "def helper():\n    return 3\n" + T + "    print(helper())\n",
         [("helper-body", "referenced", {"BUILD.dawn": "def helper():\n    return 4\n" + T + "    print(helper())\n"})], corrupt=True)
     add("loaded-helper", "load(\"//:lib.dawn\", \"helper\")\n" + T + "    print(helper())\n",
